@@ -307,11 +307,27 @@ where
     SC: Cache<Result<Arc<[u8]>, Arc<PdfError>>>,
     L: Log
 {
-    fn resolve_flags(&self, r: PlainRef, flags: ParseFlags, _depth: usize) -> Result<Primitive> {
+    fn resolve_flags(&self, r: PlainRef, flags: ParseFlags, depth: usize) -> Result<Primitive> {
         let storage = self.storage;
         storage.log.load_object(r);
 
-        storage.resolve_ref(r, flags, self)
+        let p = storage.resolve_ref(r, flags, self)?;
+        if let Primitive::Reference(mut next) = p {
+            // The object's value is itself a reference. Readers follow such chains recursively,
+            // so make sure this one ends instead of leading back to where it started.
+            let mut hops = 0;
+            loop {
+                if next.id == r.id || hops >= depth.max(1) {
+                    bail!("reference loop");
+                }
+                hops += 1;
+                match storage.resolve_ref(next, ParseFlags::ANY, self) {
+                    Ok(Primitive::Reference(n)) => next = n,
+                    _ => break
+                }
+            }
+        }
+        Ok(p)
     }
 
     fn get<T: Object+DataSize>(&self, r: Ref<T>) -> Result<RcRef<T>> {
